@@ -193,7 +193,8 @@ def run(ctx):
         return [[p0[0], m01[0], p1[0], m02[0], m12[0], p2[0]], [p0[1], m01[1], p1[1], m02[1], m12[1], p2[1]]]
     tcases = []
     for rep in range(10 if ctx.quick() else 200):
-        o = (F(rng.randint(-4, 4), 2), F(rng.randint(-4, 4), 2))
+        # the two coordinates live in different ranges (a point made of two abscissae is then far from the triangle)
+        o = (F(rng.randint(-4, 4), 2), F(rng.choice([-20, -10, 0, 10, 20])) + F(rng.randint(-4, 4), 2))
         big = [o, (o[0] + 8, o[1] + F(rng.randint(-2, 2), 2)), (o[0] + F(rng.randint(-2, 2), 2), o[1] + 8)]
         fam = rng.choice(["nested", "nested", "crossing", "disjoint"])
         if fam == "nested":
